@@ -20,6 +20,8 @@ ASSUMPTIONS = [
 EPS = 2.0**-52
 SHARD_TIMEOUT = {"quick": 2400, "thorough": 20000}
 
+ANCHORS = [('pervaporation/pervaporation.py', 'pervaporation_function_first.b[0] = activation_energy_first / R', 'single-curve Arrhenius rescaling')]
+
 
 def shards(tier, seed):
     n = {"quick": 16, "thorough": 400}[tier]
@@ -56,6 +58,9 @@ def one_case(rep, spec, index):
     single = len(sc.curve_set.diffusion_curves) == 1
     tc = sc.curve_set.diffusion_curves[0].feed_temperature
     case = dict(sc.describe(), index=index, kind=kind)
+    # what the public extractor yields for each component BEFORE the model runs (a model that rewrites the set would
+    # otherwise be compared with its own rewrite)
+    ref_measurements = (Measurements.from_diffusion_curves_first(sc.curve_set), Measurements.from_diffusion_curves_second(sc.curve_set))
     # recorders
     rec_fit, rec_ea = [], []
     orig_fbf = pvmod.find_best_fit
@@ -118,7 +123,7 @@ def one_case(rep, spec, index):
     for i in (0, 1):
         a, k, ret, ret_c = rec_fit[i]
         data = k.get("data", a[0] if a else None)
-        ref_data = extract[i](sc.curve_set)
+        ref_data = ref_measurements[i]
         ci = dict(case, component=i)
         rep.require("the search for component i receives exactly that component's measurements from the supplied set",
                     data is not None and fingerprint.deep(data) == fingerprint.deep(ref_data) and k.get("component_index", 0) == i, ci,
